@@ -486,7 +486,9 @@ def raw_cases(r, n):
 
 PARTIAL = ["features_recovered / parse_layout: proved for features whose qualifier keys are pairwise distinct; a feature with a repeated key "
            "(several /db_xref) keeps only the last value because poly.Feature.Attributes is a map[string]string — known finding "
-           "C01-repeated-qualifier-key (witness theorem repeated_qualifier_key_witness); everything else of the statement is at full strength"]
+           "C01-repeated-qualifier-key (witness theorem repeated_qualifier_key_witness); everything else of the statement is at full strength. "
+           "Judge on that class: tagged when the failure is confined to the qualifiers of the repeated keys (any loss there), plain FAIL when "
+           "anything else differs; a reply that keeps every stated value (repeated or joined) passes and its difference from the model is drift"]
 TECHNIQUE = ("Lean 4 proof over an executable model of genbank.Parse / ParseMulti / ParseFlat against an independent flat-file "
              "writer (round trip parse (layout r l) = r for every record and every layout choice); differential correspondence "
              "on generated (record, layout) pairs")
